@@ -174,12 +174,17 @@ def run(ctx):
                 if len(samples) < 4 and behaviours:
                     samples.append({"flavour": fl, "mode": mode, "history": [(x["op"], x["h"], x["g"], x["k"], x["v"]) for x in behaviours[len(behaviours) // 2]]})
     ntr_ok, ntr = trace_direction(ctx, exe)
+    import afcheck
+    af = afcheck.run(ctx, exe)
+    ctx.cov.update(af)
     ctx.cov.update({
-        "traces_validated_against_impl": nconf + ntr_ok, "behaviours_replayed": total, "behaviours_conforming": nconf, "recorded_traces": ntr, "recorded_traces_accepted": ntr_ok,
+        "traces_validated_against_impl": nconf + ntr_ok + af["af_conforming"], "behaviours_replayed": total, "behaviours_conforming": nconf, "recorded_traces": ntr, "recorded_traces_accepted": ntr_ok,
         "samples": samples, "exhaustive": True,
         "rule": "all histories of length 4-5 over inc/observe, flush, reset/clear, clone, new, drop, direct update (single metric, 3 local handles) and over local-vector inc, flush, remove_label_values, clone, drop, "
                 "direct update/remove (2 keys, 2 local vector handles) for Counter, IntCounter and Histogram; after every call the shared metric, every local handle and the collected vector are compared with Local.tla; "
-                "random 150-call traces incl. unspecified drops validated against LocalTrace",
+                "random 150-call traces incl. unspecified drops validated against LocalTrace; "
+                "AutoFlush.tla (thread-local roots of make_auto_flush_static_metric!, may_flush on the coarse clock, thread exit): invariants model-checked, all histories of length 4-5 and "
+                "simulated histories of length 12-16 over tick/start/update/get/reset/flush/exit on 2 threads x 2 leaves replayed on real threads under a virtual clock (hook H4)",
     })
 
 
@@ -291,6 +296,11 @@ def gen_plan(rnd, mode, n):
 def replay(path):
     d = json.load(open(path))
     rp = d["replay"]
+    if rp.get("autoflush"):
+        import afcheck
+        return afcheck.replay(rp)
+    if "tlc" in rp:
+        print(rp["tlc"]); return 1
     ctx = Ctx("C12_replay", "quick", 0, LEVEL)
     exe = build_harness()
     tr = Tr(rp["kind"], rp["flavour"])
